@@ -283,7 +283,7 @@ pub open spec fn nodes_per_want(r: Response, want: Option<Want>, own_v4: bool) -
 }
 
 impl DhtHandler {
-//@begin fn src/handler.rs impl:DhtHandler handle_incoming rules=R-deasync props=C05,C06,C07,C12,C01
+//@begin fn src/handler.rs impl:DhtHandler handle_incoming rules=R-deasync props=C05,C06,C07,C12,C01,C09
     pub fn handle_incoming(
         &mut self,
         message: Message,
@@ -407,6 +407,7 @@ impl DhtHandler {
                 }
 
                 let (nodes_v4, nodes_v6) = self.find_closest_nodes(f.target, f.want)?;
+                let ghost enumerated = (nodes_v4@, nodes_v6@);
 
                 let find_node_rsp = Response {
                     id: self.this_node_id,
@@ -415,6 +416,7 @@ impl DhtHandler {
                     nodes_v6,
                     token: None,
                 };
+                assert(find_node_rsp.nodes_v4@ == enumerated.0 && find_node_rsp.nodes_v6@ == enumerated.1); // @C09.find_node_reply_lists_exactly_the_enumeration_result
                 let find_node_msg = Message {
                     transaction_id: message.transaction_id,
                     body: MessageBody::Response(find_node_rsp),
@@ -457,6 +459,7 @@ impl DhtHandler {
 
                 // Grab the closest nodes
                 let (nodes_v4, nodes_v6) = self.find_closest_nodes(g.info_hash, g.want)?;
+                let ghost enumerated = (nodes_v4@, nodes_v6@);
                 let token = self.token_store.checkout(addr.ip());
 
                 let get_peers_rsp = Response {
@@ -466,6 +469,7 @@ impl DhtHandler {
                     nodes_v6,
                     token: Some(token.as_ref().to_vec()),
                 };
+                assert(get_peers_rsp.nodes_v4@ == enumerated.0 && get_peers_rsp.nodes_v6@ == enumerated.1); // @C09.get_peers_reply_lists_exactly_the_enumeration_result
                 let get_peers_msg = Message {
                     transaction_id: message.transaction_id,
                     body: MessageBody::Response(get_peers_rsp),
@@ -626,14 +630,14 @@ impl DhtHandler {
     }
 //@end
 
-//@begin fn src/handler.rs impl:DhtHandler find_closest_nodes props=C05,C09
+//@begin fn src/handler.rs impl:DhtHandler find_closest_nodes props=C05,C09,C17
     pub fn find_closest_nodes(
         &self,
         target: InfoHash,
         want: Option<Want>,
     ) -> (res: Result<(Vec<NodeHandle>, Vec<NodeHandle>), WorkerError>)
         ensures res is Ok,
-            lists_per_want(res->Ok_0.0@, res->Ok_0.1@, want, sa_is_v4(self.socket.local_addr)), // @C09.at_most_8_per_family_selected_by_want
+            lists_per_want(res->Ok_0.0@, res->Ok_0.1@, want, sa_is_v4(self.socket.local_addr)), // @C09.at_most_8_per_family_selected_by_want @C17.at_most_8_nodes_per_family
             forall|i: int| 0 <= i < res->Ok_0.0@.len() ==> sa_is_v4(#[trigger] res->Ok_0.0@[i].addr), // @C09.nodes_list_holds_only_ipv4
             forall|i: int| 0 <= i < res->Ok_0.1@.len() ==> !sa_is_v4(#[trigger] res->Ok_0.1@[i].addr), // @C09.nodes6_list_holds_only_ipv6
     {
